@@ -42,6 +42,24 @@ func codeAlphabetStrings(maxLen int) []string {
 	return out
 }
 
+// codePads: all strings of 1-3 bytes over NUL, blank, tab, newline and 0xFF
+var codePads = func() []string {
+	sigma := []byte{0x00, ' ', '\t', '\n', 0xFF}
+	var out, prev []string
+	prev = []string{""}
+	for l := 1; l <= 3; l++ {
+		var cur []string
+		for _, p := range prev {
+			for _, c := range sigma {
+				cur = append(cur, p+string([]byte{c}))
+			}
+		}
+		out = append(out, cur...)
+		prev = cur
+	}
+	return out
+}()
+
 func tableCase(en *lib.Enum, what string, arg any) map[string]any {
 	return map[string]any{"cvss": en.Ver, "metric": en.Name, "what": what, "argument": arg}
 }
@@ -87,6 +105,20 @@ func init() {
 						r.Violate(ev.Violation{Kind: "non-code-accepted", Case: tableCase(en, "Get", s), Observed: fmt.Sprintf("%d (prints %q)", got, en.Str(got)), Expected: "the unknown/invalid value"})
 					}
 				}
+				// every code decorated with 1-3 bytes of padding in front, behind, or both
+				for _, c := range en.Codes {
+					for _, pad := range codePads {
+						for _, sdec := range []string{pad + c.Code, c.Code + pad, pad + c.Code + pad} {
+							if en.Has(sdec) {
+								continue
+							}
+							evals++
+							if got := en.Parse(sdec); got != en.Unknown {
+								r.Violate(ev.Violation{Kind: "non-code-accepted", Case: tableCase(en, "Get", fmt.Sprintf("%q", sdec)), Observed: fmt.Sprintf("%d (prints %q)", got, en.Str(got)), Expected: "the unknown/invalid value"})
+							}
+						}
+					}
+				}
 				distinct += int64(len(others))
 				// (3) every enumeration integer
 				defined := map[int]bool{}
@@ -96,6 +128,10 @@ func init() {
 				ints := []int{-1 << 31, -2, -1, 1 << 31}
 				for i := 0; i <= en.MaxEnum+2; i++ {
 					ints = append(ints, i)
+				}
+				// integers that alias a defined value when truncated to 8, 16 or 32 bits
+				for _, d := range en.Consts {
+					ints = append(ints, d+1<<8, d-1<<8, d+1<<16, d+1<<32, d-1<<32, d+5<<32, d+1<<48)
 				}
 				unkPred := en.Predicates(en.Unknown)
 				if en.Str(en.Unknown) != "" {
@@ -136,7 +172,7 @@ func init() {
 		r.Set("metrics", int64(len(lib.Enums3)+len(lib.Enums2)))
 		r.Set("non_code_strings_per_metric", int64(len(others)))
 		r.Set("exhaustive", true)
-		r.Set("rule", "36 metrics + 2 version parsers x (every specification code; every string of length <=3 over A-Z0-9 and a few other shapes as non-codes; every enumeration integer in [-2, max+2] and +-2^31): Get(code).String()==code and equals the constant the library names for that code, distinct codes give distinct values, every other string gives the unknown/invalid constant, which prints empty and on which IsUnknown/IsValid answers differently than on every defined value; Value(...) equals the specification weight for every value, both scopes for PR/MPR (all MS x S x PR contexts) and every base value for a Not Defined Modified metric; distinct by (metric, argument)")
+		r.Set("rule", "36 metrics + 2 version parsers x (every specification code; every string of length <=3 over A-Z0-9, every code padded with 1-3 bytes of NUL/blank/tab/newline/0xFF in front, behind or both, and a few other shapes as non-codes; every enumeration integer in [-2, max+2] and +-2^31): Get(code).String()==code and equals the constant the library names for that code, distinct codes give distinct values, every other string gives the unknown/invalid constant, which prints empty and on which IsUnknown/IsValid answers differently than on every defined value; Value(...) equals the specification weight for every value, both scopes for PR/MPR (all MS x S x PR contexts) and every base value for a Not Defined Modified metric; distinct by (metric, argument)")
 		r.Assume("weights compared as float64 parsed from the specification's decimal strings (the library's tables are float literals of the same decimals)")
 	})
 }
